@@ -65,14 +65,7 @@ theorem bytesVals_eq : ∀ xs, (Impl.bytesVals xs).map List.flatten = Spec.bytes
     rw [← bytesVals_eq xs]
     cases Impl.bytesVals xs <;> simp
 
-@[simp] theorem map'_ok {α β : Type} (f : α → β) (a : α) : (Res.ok a).map' f = .ok (f a) := rfl
-@[simp] theorem map'_failed {α β : Type} (f : α → β) (v : Val) : (Res.failed v : Res α).map' f = .failed v := rfl
-@[simp] theorem map'_err {α β : Type} (f : α → β) : (Res.err : Res α).map' f = .err := rfl
-@[simp] theorem rbind_ok {α β : Type} (a : α) (f : α → Res β) : (Res.ok a).bind f = f a := rfl
-@[simp] theorem rbind_failed {α β : Type} (v : Val) (f : α → Res β) : (Res.failed v : Res α).bind f = .failed v := rfl
-@[simp] theorem rbind_err {α β : Type} (f : α → Res β) : (Res.err : Res α).bind f = .err := rfl
-
-theorem bind_ne_err_step {α β : Type} {r : Res α} {f : α → Res β} (h : r.bind f ≠ .err) : r ≠ .err := by
+theorem bind_ne_stuck_step {α β : Type} {r : Res α} {f : α → Res β} (h : r.bind f ≠ .stuck) : r ≠ .stuck := by
   intro e; subst e; exact h rfl
 
 end Interp
@@ -145,52 +138,52 @@ macro_rules
 section
 variable (env : Env) (pre st : List Val)
 
-theorem step_UNPAIR (hr : Spec.step env .UNPAIR st ≠ .err) :
+theorem step_UNPAIR (hr : Spec.step env .UNPAIR st ≠ .stuck) :
     Impl.step env .UNPAIR (stk pre st) = (Spec.step env .UNPAIR st).map' (stk pre) := by step_top1
-theorem step_CAR (hr : Spec.step env .CAR st ≠ .err) :
+theorem step_CAR (hr : Spec.step env .CAR st ≠ .stuck) :
     Impl.step env .CAR (stk pre st) = (Spec.step env .CAR st).map' (stk pre) := by step_top1
-theorem step_CDR (hr : Spec.step env .CDR st ≠ .err) :
+theorem step_CDR (hr : Spec.step env .CDR st ≠ .stuck) :
     Impl.step env .CDR (stk pre st) = (Spec.step env .CDR st).map' (stk pre) := by step_top1
-theorem step_SIZE (hr : Spec.step env .SIZE st ≠ .err) :
+theorem step_SIZE (hr : Spec.step env .SIZE st ≠ .stuck) :
     Impl.step env .SIZE (stk pre st) = (Spec.step env .SIZE st).map' (stk pre) := by step_top1
-theorem step_NEG (hr : Spec.step env .NEG st ≠ .err) :
+theorem step_NEG (hr : Spec.step env .NEG st ≠ .stuck) :
     Impl.step env .NEG (stk pre st) = (Spec.step env .NEG st).map' (stk pre) := by step_top1
-theorem step_ABS (hr : Spec.step env .ABS st ≠ .err) :
+theorem step_ABS (hr : Spec.step env .ABS st ≠ .stuck) :
     Impl.step env .ABS (stk pre st) = (Spec.step env .ABS st).map' (stk pre) := by step_top1
-theorem step_ISNAT (hr : Spec.step env .ISNAT st ≠ .err) :
+theorem step_ISNAT (hr : Spec.step env .ISNAT st ≠ .stuck) :
     Impl.step env .ISNAT (stk pre st) = (Spec.step env .ISNAT st).map' (stk pre) := by step_top1
-theorem step_INT (hr : Spec.step env .INT st ≠ .err) :
+theorem step_INT (hr : Spec.step env .INT st ≠ .stuck) :
     Impl.step env .INT (stk pre st) = (Spec.step env .INT st).map' (stk pre) := by step_top1
-theorem step_EQ (hr : Spec.step env .EQ st ≠ .err) :
+theorem step_EQ (hr : Spec.step env .EQ st ≠ .stuck) :
     Impl.step env .EQ (stk pre st) = (Spec.step env .EQ st).map' (stk pre) := by step_top1
-theorem step_NEQ (hr : Spec.step env .NEQ st ≠ .err) :
+theorem step_NEQ (hr : Spec.step env .NEQ st ≠ .stuck) :
     Impl.step env .NEQ (stk pre st) = (Spec.step env .NEQ st).map' (stk pre) := by step_top1
-theorem step_LT (hr : Spec.step env .LT st ≠ .err) :
+theorem step_LT (hr : Spec.step env .LT st ≠ .stuck) :
     Impl.step env .LT (stk pre st) = (Spec.step env .LT st).map' (stk pre) := by step_top1
-theorem step_GT (hr : Spec.step env .GT st ≠ .err) :
+theorem step_GT (hr : Spec.step env .GT st ≠ .stuck) :
     Impl.step env .GT (stk pre st) = (Spec.step env .GT st).map' (stk pre) := by step_top1
-theorem step_LE (hr : Spec.step env .LE st ≠ .err) :
+theorem step_LE (hr : Spec.step env .LE st ≠ .stuck) :
     Impl.step env .LE (stk pre st) = (Spec.step env .LE st).map' (stk pre) := by step_top1
-theorem step_GE (hr : Spec.step env .GE st ≠ .err) :
+theorem step_GE (hr : Spec.step env .GE st ≠ .stuck) :
     Impl.step env .GE (stk pre st) = (Spec.step env .GE st).map' (stk pre) := by step_top1
-theorem step_BLAKE2B (hr : Spec.step env .BLAKE2B st ≠ .err) :
+theorem step_BLAKE2B (hr : Spec.step env .BLAKE2B st ≠ .stuck) :
     Impl.step env .BLAKE2B (stk pre st) = (Spec.step env .BLAKE2B st).map' (stk pre) := by step_top1
-theorem step_SHA256 (hr : Spec.step env .SHA256 st ≠ .err) :
+theorem step_SHA256 (hr : Spec.step env .SHA256 st ≠ .stuck) :
     Impl.step env .SHA256 (stk pre st) = (Spec.step env .SHA256 st).map' (stk pre) := by step_top1
-theorem step_SHA512 (hr : Spec.step env .SHA512 st ≠ .err) :
+theorem step_SHA512 (hr : Spec.step env .SHA512 st ≠ .stuck) :
     Impl.step env .SHA512 (stk pre st) = (Spec.step env .SHA512 st).map' (stk pre) := by step_top1
-theorem step_KECCAK (hr : Spec.step env .KECCAK st ≠ .err) :
+theorem step_KECCAK (hr : Spec.step env .KECCAK st ≠ .stuck) :
     Impl.step env .KECCAK (stk pre st) = (Spec.step env .KECCAK st).map' (stk pre) := by step_top1
-theorem step_SHA3 (hr : Spec.step env .SHA3 st ≠ .err) :
+theorem step_SHA3 (hr : Spec.step env .SHA3 st ≠ .stuck) :
     Impl.step env .SHA3 (stk pre st) = (Spec.step env .SHA3 st).map' (stk pre) := by step_top1
-theorem step_NOT (hr : Spec.step env .NOT st ≠ .err) :
+theorem step_NOT (hr : Spec.step env .NOT st ≠ .stuck) :
     Impl.step env .NOT (stk pre st) = (Spec.step env .NOT st).map' (stk pre) := by step_top1
 end
 
 section
 variable (env : Env) (pre st : List Val)
 
-theorem step_APPLY (hr : Spec.step env .APPLY st ≠ .err) :
+theorem step_APPLY (hr : Spec.step env .APPLY st ≠ .stuck) :
     Impl.step env .APPLY (stk pre st) = (Spec.step env .APPLY st).map' (stk pre) := by
   rcases st with _ | ⟨a, _ | ⟨b, st⟩⟩
   · exact absurd rfl hr
@@ -204,30 +197,30 @@ theorem step_APPLY (hr : Spec.step env .APPLY st ≠ .err) :
     · simp [Impl.step, h]
     · simp [h] at hr
 
-theorem step_CONS (hr : Spec.step env .CONS st ≠ .err) :
+theorem step_CONS (hr : Spec.step env .CONS st ≠ .stuck) :
     Impl.step env .CONS (stk pre st) = (Spec.step env .CONS st).map' (stk pre) := by
   rcases st with _ | ⟨a, _ | ⟨b, st⟩⟩
   · exact absurd rfl hr
   · exact absurd rfl hr
   · cases b <;> first | (exact absurd rfl hr) | skip
     rename_i t xs
-    have hs : Spec.step env .CONS (a :: .list t xs :: st) = (if typeOf a = t then .ok (.list t (a :: xs) :: st) else .err) := rfl
+    have hs : Spec.step env .CONS (a :: .list t xs :: st) = (if typeOf a = t then .ok (.list t (a :: xs) :: st) else .stuck) := rfl
     rw [hs] at hr ⊢
     have hi : Impl.step env .CONS (stk pre (a :: .list t xs :: st)) = (do
         let (a, l, s) ← (stk pre (a :: .list t xs :: st)).pop2
         match l with
-        | .list t xs => if typeOf a = t then pure (s.push (.list t (a :: xs))) else .err
-        | _ => .err) := rfl
+        | .list t xs => if typeOf a = t then pure (s.push (.list t (a :: xs))) else .stuck
+        | _ => .stuck) := rfl
     rw [hi]
     by_cases h : typeOf a = t
     · simp [h]
     · simp [h] at hr
 
-theorem step_PAIRN (n : Nat) (hr : Spec.step env (.PAIRN n) st ≠ .err) :
+theorem step_PAIRN (n : Nat) (hr : Spec.step env (.PAIRN n) st ≠ .stuck) :
     Impl.step env (.PAIRN n) (stk pre st) = (Spec.step env (.PAIRN n) st).map' (stk pre) := by
   have hs : Spec.step env (.PAIRN n) st = (match Spec.pairN n st with
       | some (r, st') => .ok (r :: st')
-      | none => .err) := rfl
+      | none => .stuck) := rfl
   rw [hs] at hr ⊢
   cases hq : Spec.pairN n st with
   | none => simp [hq] at hr
@@ -236,41 +229,41 @@ theorem step_PAIRN (n : Nat) (hr : Spec.step env (.PAIRN n) st ≠ .err) :
     obtain ⟨h1, h2, h3, h4⟩ := fromComb_refines n st r st' hq
     have h1' : ¬ n < 2 := by omega
     have h2' : ¬ st.length < n := by omega
-    have hi : Impl.step env (.PAIRN n) (stk pre st) = (if n < 2 then .err else do
+    have hi : Impl.step env (.PAIRN n) (stk pre st) = (if n < 2 then .stuck else do
         let (leaves, s) ← (stk pre st).pop n
         let r ← Impl.fromComb leaves
         pure (s.push r)) := rfl
     rw [hi]
     simp [h1', pop_mk, h2', h3, h4]
 
-theorem step_UNPAIRN (n : Nat) (hr : Spec.step env (.UNPAIRN n) st ≠ .err) :
+theorem step_UNPAIRN (n : Nat) (hr : Spec.step env (.UNPAIRN n) st ≠ .stuck) :
     Impl.step env (.UNPAIRN n) (stk pre st) = (Spec.step env (.UNPAIRN n) st).map' (stk pre) := by
   rcases st with _ | ⟨v, st⟩
   · exact absurd rfl hr
   have hs : Spec.step env (.UNPAIRN n) (v :: st) = (match Spec.unpairN n v with
       | some xs => .ok (xs ++ st)
-      | none => .err) := rfl
+      | none => .stuck) := rfl
   rw [hs] at hr ⊢
   cases hq : Spec.unpairN n v with
   | none => simp [hq] at hr
   | some xs =>
     obtain ⟨h1, ⟨a, b, rfl⟩, h3⟩ := unpairnComb_refines n v xs hq
     have h1' : ¬ n < 2 := by omega
-    have hi : Impl.step env (.UNPAIRN n) (stk pre (.pair a b :: st)) = (if n < 2 then .err else do
+    have hi : Impl.step env (.UNPAIRN n) (stk pre (.pair a b :: st)) = (if n < 2 then .stuck else do
         let (p, s) ← (stk pre (.pair a b :: st)).pop1
         match p with
         | .pair _ _ => pure ((Impl.unpairnComb (n - 2) p).reverse.foldl Stack.push s)
-        | _ => .err) := rfl
+        | _ => .stuck) := rfl
     rw [hi]
     simp only [h1', if_false, pop1_mk_cons, Res.bind_ok, h3, push_reversed, Res.pure_eq, map'_ok]
 
-theorem step_GETN (n : Nat) (hr : Spec.step env (.GETN n) st ≠ .err) :
+theorem step_GETN (n : Nat) (hr : Spec.step env (.GETN n) st ≠ .stuck) :
     Impl.step env (.GETN n) (stk pre st) = (Spec.step env (.GETN n) st).map' (stk pre) := by
   rcases st with _ | ⟨v, st⟩
   · exact absurd rfl hr
   have hs : Spec.step env (.GETN n) (v :: st) = (match Spec.getN n v with
       | some r => .ok (r :: st)
-      | none => .err) := rfl
+      | none => .stuck) := rfl
   rw [hs] at hr ⊢
   have hi : Impl.step env (.GETN n) (stk pre (v :: st)) = (do
       let (p, s) ← (stk pre (v :: st)).pop1
@@ -279,8 +272,8 @@ theorem step_GETN (n : Nat) (hr : Spec.step env (.GETN n) st ≠ .err) :
         | .pair _ _ =>
           match (Impl.iterComb true p)[n]? with
           | some r => pure (s.push r)
-          | none => .err
-        | _ => .err) := rfl
+          | none => .stuck
+        | _ => .stuck) := rfl
   rw [hi]
   cases hq : Spec.getN n v with
   | none => simp [hq] at hr
@@ -294,21 +287,21 @@ theorem step_GETN (n : Nat) (hr : Spec.step env (.GETN n) st ≠ .err) :
       have := accessComb_refines n _ r hq
       simp [hn, this]
 
-theorem step_UPDATEN (n : Nat) (hr : Spec.step env (.UPDATEN n) st ≠ .err) :
+theorem step_UPDATEN (n : Nat) (hr : Spec.step env (.UPDATEN n) st ≠ .stuck) :
     Impl.step env (.UPDATEN n) (stk pre st) = (Spec.step env (.UPDATEN n) st).map' (stk pre) := by
   rcases st with _ | ⟨e, _ | ⟨v, st⟩⟩
   · exact absurd rfl hr
   · exact absurd rfl hr
   have hs : Spec.step env (.UPDATEN n) (e :: v :: st) = (match Spec.updateN n e v with
       | some r => .ok (r :: st)
-      | none => .err) := rfl
+      | none => .stuck) := rfl
   rw [hs] at hr ⊢
   have hi : Impl.step env (.UPDATEN n) (stk pre (e :: v :: st)) = (do
       let (element, p, s) ← (stk pre (e :: v :: st)).pop2
       if n = 0 then pure (s.push element)
       else match p with
         | .pair _ _ => do let r ← Impl.updateComb n element p; pure (s.push r)
-        | _ => .err) := rfl
+        | _ => .stuck) := rfl
   rw [hi]
   cases hq : Spec.updateN n e v with
   | none => simp [hq] at hr
@@ -324,24 +317,27 @@ theorem step_UPDATEN (n : Nat) (hr : Spec.step env (.UPDATEN n) st ≠ .err) :
 /-- instructions of the form `a, b = pop2(); res = f(a, b); push(res)` -/
 theorem step_binop (i : Instr) (f g : Val → Val → Res Val)
     (hs : ∀ a b st, Spec.step env i (a :: b :: st) = (f a b).bind fun r => .ok (r :: st))
-    (hs0 : Spec.step env i [] = .err) (hs1 : ∀ a, Spec.step env i [a] = .err)
+    (hs0 : Spec.step env i [] = .stuck) (hs1 : ∀ a, Spec.step env i [a] = .stuck)
     (hi : ∀ s, Impl.step env i s = (do let (a, b, s) ← s.pop2; let r ← g a b; pure (s.push r)))
-    (hfg : ∀ a b, f a b ≠ .err → g a b = f a b)
-    (hr : Spec.step env i st ≠ .err) :
+    (hfg : ∀ a b, f a b ≠ .stuck → g a b = f a b)
+    (hr : Spec.step env i st ≠ .stuck) :
     Impl.step env i (stk pre st) = (Spec.step env i st).map' (stk pre) := by
   rcases st with _ | ⟨a, _ | ⟨b, st⟩⟩
   · exact absurd hs0 hr
   · exact absurd (hs1 a) hr
   rw [hs] at hr ⊢
-  have h1 := bind_ne_err_step hr
+  have h1 := bind_ne_stuck_step hr
   rw [hi, pop2_mk_cons]
   simp only [Res.bind_ok, hfg a b h1]
   cases hq : f a b with
-  | err => exact absurd hq h1
-  | failed v => simp
+  | stuck => exact absurd hq h1
+  | failed _ => simp
+  | rtfail => simp
+  | oof => simp
+  | offguard => simp
   | ok r => simp
 
-theorem execAnd_eq (a b : Val) (h : Spec.andV a b ≠ .err) : Impl.execAnd a b = Spec.andV a b := by
+theorem execAnd_eq (a b : Val) (h : Spec.andV a b ≠ .stuck) : Impl.execAnd a b = Spec.andV a b := by
   unfold Spec.andV at h ⊢
   split at h
   · rfl
@@ -359,7 +355,7 @@ theorem execAnd_eq (a b : Val) (h : Spec.andV a b ≠ .err) : Impl.execAnd a b =
     · simp [hc] at h
   · exact absurd rfl h
 
-theorem execOr_eq (a b : Val) (h : Spec.orV a b ≠ .err) : Impl.execOr a b = Spec.orV a b := by
+theorem execOr_eq (a b : Val) (h : Spec.orV a b ≠ .stuck) : Impl.execOr a b = Spec.orV a b := by
   unfold Spec.orV at h ⊢
   split at h
   · rfl
@@ -369,7 +365,7 @@ theorem execOr_eq (a b : Val) (h : Spec.orV a b ≠ .err) : Impl.execOr a b = Sp
     · simp [hc] at h
   · exact absurd rfl h
 
-theorem execXor_eq (a b : Val) (h : Spec.xorV a b ≠ .err) : Impl.execXor a b = Spec.xorV a b := by
+theorem execXor_eq (a b : Val) (h : Spec.xorV a b ≠ .stuck) : Impl.execXor a b = Spec.xorV a b := by
   unfold Spec.xorV at h ⊢
   split at h
   · cases ‹Bool› <;> cases ‹Bool› <;> rfl
@@ -379,7 +375,7 @@ theorem execXor_eq (a b : Val) (h : Spec.xorV a b ≠ .err) : Impl.execXor a b =
     · simp [hc] at h
   · exact absurd rfl h
 
-theorem execEdiv_eq (a b : Val) (h : Spec.edivV a b ≠ .err) : Impl.execEdiv a b = Spec.edivV a b := by
+theorem execEdiv_eq (a b : Val) (h : Spec.edivV a b ≠ .stuck) : Impl.execEdiv a b = Spec.edivV a b := by
   unfold Spec.edivV at h ⊢
   split at h
   · rename_i ta x tb y
@@ -393,37 +389,49 @@ theorem execEdiv_eq (a b : Val) (h : Spec.edivV a b ≠ .err) : Impl.execEdiv a 
       · simp [hy]
       · simp only [hy, if_false, pyEdiv_eq x y hy, numFromValue_eq] at h ⊢
         cases hq : Spec.numOk qt (x / y) with
-        | err => simp [hq] at h
-        | failed v => simp
+        | stuck => simp [hq] at h
+        | failed _ => simp
+        | rtfail => simp
+        | oof => simp
+        | offguard => simp
         | ok q =>
           simp only [hq, rbind_ok, Res.bind_ok] at h ⊢
           cases hq2 : Spec.numOk rt (x % y) with
-          | err => simp [hq2] at h
-          | failed v => simp
+          | stuck => simp [hq2] at h
+          | failed _ => simp
+          | rtfail => simp
+          | oof => simp
+          | offguard => simp
           | ok r => simp [Impl.fromComb]
   · exact absurd rfl h
 
-theorem execLsl_eq (a b : Val) (h : Spec.lslV a b ≠ .err) :
+theorem execLsl_eq (a b : Val) (h : Spec.lslV a b ≠ .stuck) :
     Impl.execShift (fun x n => x <<< n) a b = Spec.lslV a b := by
   unfold Spec.lslV at h ⊢
   split at h
   · rename_i x n
-    by_cases hc : 0 ≤ n ∧ n ≤ 256
-    · simp only [hc, and_self, if_true]; exact execShift_lsl x n hc
-    · simp [hc] at h
+    by_cases h0 : n < 0
+    · simp [h0] at h
+    · by_cases hc : n ≤ 256
+      · simp only [h0, hc, if_true, if_false]; exact execShift_lsl x n ⟨by omega, hc⟩
+      · have h257 : ¬ n < 257 := by omega
+        simp [Impl.execShift, h0, hc, h257]
   · exact absurd rfl h
 
-theorem execLsr_eq (a b : Val) (h : Spec.lsrV a b ≠ .err) :
+theorem execLsr_eq (a b : Val) (h : Spec.lsrV a b ≠ .stuck) :
     Impl.execShift (fun x n => x >>> n) a b = Spec.lsrV a b := by
   unfold Spec.lsrV at h ⊢
   split at h
   · rename_i x n
-    by_cases hc : 0 ≤ n ∧ n ≤ 256
-    · simp only [hc, and_self, if_true]; exact execShift_lsr x n hc
-    · simp [hc] at h
+    by_cases h0 : n < 0
+    · simp [h0] at h
+    · by_cases hc : n ≤ 256
+      · simp only [h0, hc, if_true, if_false]; exact execShift_lsr x n ⟨by omega, hc⟩
+      · have h257 : ¬ n < 257 := by omega
+        simp [Impl.execShift, h0, hc, h257]
   · exact absurd rfl h
 
-theorem execSubMutez_eq (a b : Val) (h : Spec.subMutezV a b ≠ .err) : Impl.execSubMutez a b = Spec.subMutezV a b := by
+theorem execSubMutez_eq (a b : Val) (h : Spec.subMutezV a b ≠ .stuck) : Impl.execSubMutez a b = Spec.subMutezV a b := by
   unfold Spec.subMutezV at h ⊢
   split at h
   · rename_i x y
@@ -437,25 +445,28 @@ theorem execSubMutez_eq (a b : Val) (h : Spec.subMutezV a b ≠ .err) : Impl.exe
 /-- instructions of the form `a, b, c = pop3(); res = f(a, b, c); push(res)` -/
 theorem step_ternop (i : Instr) (f g : Val → Val → Val → Res Val)
     (hs : ∀ a b c st, Spec.step env i (a :: b :: c :: st) = (f a b c).bind fun r => .ok (r :: st))
-    (hs0 : Spec.step env i [] = .err) (hs1 : ∀ a, Spec.step env i [a] = .err) (hs2 : ∀ a b, Spec.step env i [a, b] = .err)
+    (hs0 : Spec.step env i [] = .stuck) (hs1 : ∀ a, Spec.step env i [a] = .stuck) (hs2 : ∀ a b, Spec.step env i [a, b] = .stuck)
     (hi : ∀ s, Impl.step env i s = (do let (a, b, c, s) ← s.pop3; let r ← g a b c; pure (s.push r)))
-    (hfg : ∀ a b c, f a b c ≠ .err → g a b c = f a b c)
-    (hr : Spec.step env i st ≠ .err) :
+    (hfg : ∀ a b c, f a b c ≠ .stuck → g a b c = f a b c)
+    (hr : Spec.step env i st ≠ .stuck) :
     Impl.step env i (stk pre st) = (Spec.step env i st).map' (stk pre) := by
   rcases st with _ | ⟨a, _ | ⟨b, _ | ⟨c, st⟩⟩⟩
   · exact absurd hs0 hr
   · exact absurd (hs1 a) hr
   · exact absurd (hs2 a b) hr
   rw [hs] at hr ⊢
-  have h1 := bind_ne_err_step hr
+  have h1 := bind_ne_stuck_step hr
   rw [hi, pop3_mk_cons]
   simp only [Res.bind_ok, hfg a b c h1]
   cases hq : f a b c with
-  | err => exact absurd hq h1
-  | failed v => simp
+  | stuck => exact absurd hq h1
+  | failed _ => simp
+  | rtfail => simp
+  | oof => simp
+  | offguard => simp
   | ok r => simp
 
-theorem step_GET_AND_UPDATE (hr : Spec.step env .GET_AND_UPDATE st ≠ .err) :
+theorem step_GET_AND_UPDATE (hr : Spec.step env .GET_AND_UPDATE st ≠ .stuck) :
     Impl.step env .GET_AND_UPDATE (stk pre st) = (Spec.step env .GET_AND_UPDATE st).map' (stk pre) := by
   rcases st with _ | ⟨a, _ | ⟨b, _ | ⟨c, st⟩⟩⟩
   · exact absurd rfl hr
@@ -464,7 +475,7 @@ theorem step_GET_AND_UPDATE (hr : Spec.step env .GET_AND_UPDATE st ≠ .err) :
   have hs : Spec.step env .GET_AND_UPDATE (a :: b :: c :: st)
       = (Spec.getAndUpdateV a b c).bind fun r => .ok (r.1 :: r.2 :: st) := rfl
   rw [hs] at hr ⊢
-  have h1 := bind_ne_err_step hr
+  have h1 := bind_ne_stuck_step hr
   have hi : Impl.step env .GET_AND_UPDATE (stk pre (a :: b :: c :: st))
       = (do let (a, b, c, s) ← (stk pre (a :: b :: c :: st)).pop3
             let r ← Impl.execGetAndUpdate a b c
@@ -472,11 +483,14 @@ theorem step_GET_AND_UPDATE (hr : Spec.step env .GET_AND_UPDATE st ≠ .err) :
   rw [hi, pop3_mk_cons]
   simp only [Res.bind_ok, execGetAndUpdate_eq a b c h1]
   cases hq : Spec.getAndUpdateV a b c with
-  | err => exact absurd hq h1
-  | failed v => simp
+  | stuck => exact absurd hq h1
+  | failed _ => simp
+  | rtfail => simp
+  | oof => simp
+  | offguard => simp
   | ok r => simp
 
-theorem step_SLICE (hr : Spec.step env .SLICE st ≠ .err) :
+theorem step_SLICE (hr : Spec.step env .SLICE st ≠ .stuck) :
     Impl.step env .SLICE (stk pre st) = (Spec.step env .SLICE st).map' (stk pre) := by
   rcases st with _ | ⟨a, st⟩
   · exact absurd rfl hr
@@ -498,7 +512,7 @@ end
 
 /-- **simple instructions**: whenever the reference rule applies, the mirror's pop/push sequence on a stack with
 any protected prefix `pre` yields the rule's result under the same prefix -/
-theorem step_refines (env : Env) (i : Instr) (pre st : List Val) (hr : Spec.step env i st ≠ .err) :
+theorem step_refines (env : Env) (i : Instr) (pre st : List Val) (hr : Spec.step env i st ≠ .stuck) :
     Impl.step env i (stk pre st) = (Spec.step env i st).map' (stk pre) := by
   cases i
   case seq | DIP | DIPN | IF | IF_NONE | IF_LEFT | IF_CONS | LOOP | LOOP_LEFT | ITER | MAP | EXEC =>
